@@ -12,26 +12,33 @@ Models == {"ok_lp", "ok_logic", "infeas", "unsupported", "needbounds",
            "trunc_header", "trunc_body", "bad_opcode", "bad_index", "empty", "missing",
            "infeas_nested",    \* infeasibility found while propagating into a nested expression
            "ok_noobj",         \* valid model without objective
-           "ok_obj2"}          \* valid model with two objectives, the second one selected (objno=2)
+           "ok_obj2",          \* valid model with two objectives, the second one selected (objno=2)
+           "ok_quad"}          \* valid model whose only constraint is quadratic (no linear row: no dual vector)
 Opts == {"none", "valid", "unknown", "illtyped", "objno_range",
          "solcount",           \* valid: sol:count=1 (multiple-solution suffixes)
          "optfile_self",       \* tech:optionfile naming a file that includes itself
          "optfile_missing",    \* tech:optionfile naming a file that does not exist
          "solstub",            \* valid: sol:stub=alt sol:count=1, the solver reports NAlt further solutions
          "warn2"}              \* valid; the solver adds two warnings (the solve message gets empty lines inside)
-Modes == {"ampl", "wantsol", "plain"}
+Modes == {"ampl", "wantsol", "plain",
+          "wantsol7",          \* stand-alone, wantsol=7: .sol file plus the tables of variables and duals on the terminal
+          "print"}             \* stand-alone, wantsol=6: the tables only
 Names == {"absent", "present", "short", "crlf",
           "emptyfirst"}        \* malformed: the names files start with an empty line
 Outs == {"ok", "blocked",
          "full"}               \* the result path accepts open() but fails on write/close (device full)
-NewValues == {"infeas_nested", "ok_noobj", "ok_obj2", "solcount", "optfile_self", "optfile_missing", "emptyfirst", "full", "solstub", "warn2"}
+NewValues == {"infeas_nested", "ok_noobj", "ok_obj2", "solcount", "optfile_self", "optfile_missing", "emptyfirst", "full", "solstub", "warn2",
+              "ok_quad", "wantsol7", "print"}
 Scripted == 0                  \* the result code the scripted solver reports
 NAlt == 3                      \* further solutions the scripted solver reports in a "solstub" scenario
 \* the scenario space: the complete product of the round-1 values, plus every scenario that uses
 \* exactly one of the values added later (keeps the run count linear in the additions)
-NewCount(s) == Cardinality({f \in {"model", "opt", "names", "out"} : s[f] \in NewValues})
+NewCount(s) == Cardinality({f \in {"model", "opt", "mode", "names", "out"} : s[f] \in NewValues})
 \* ... plus the pairs of later values that touch the same mechanism (solution counting x objectives)
-Paired(s) == s.model \in {"ok_noobj", "ok_obj2"} /\ s.opt \in {"solcount", "solstub"} /\ s.names \in {"absent", "present"} /\ s.out = "ok"
+Paired(s) == \/ s.model \in {"ok_noobj", "ok_obj2"} /\ s.opt \in {"solcount", "solstub"} /\ s.names \in {"absent", "present"} /\ s.out = "ok"
+             \* ... and the printed tables x the models that have no objective / no linear row / fail late
+             \/ s.model \in {"ok_quad", "ok_noobj", "infeas_nested"} /\ s.mode \in {"wantsol7", "print"} /\ s.opt \in {"none", "valid"}
+                /\ s.names \in {"absent", "present"} /\ s.out = "ok"
 Scenarios == {s \in [model : Models, opt : Opts, mode : Modes, names : Names, out : Outs] : NewCount(s) <= 1 \/ Paired(s)}
 
 HeaderReadable(s) == s.model \notin {"trunc_header", "empty", "missing"}
@@ -39,7 +46,7 @@ BodyBad(s) == s.model \in {"trunc_body", "bad_opcode", "bad_index"}
 OptBad(s) == s.opt \in {"unknown", "illtyped", "objno_range", "optfile_self", "optfile_missing"}
 ConvBad(s) == s.model \in {"unsupported", "needbounds"}
 Failing(s) == ~HeaderReadable(s) \/ BodyBad(s) \/ OptBad(s) \/ ConvBad(s)
-WantsSol(s) == s.mode \in {"ampl", "wantsol"}
+WantsSol(s) == s.mode \in {"ampl", "wantsol", "wantsol7"}
 CanWriteSol(s) == WantsSol(s) /\ s.out = "ok" /\ HeaderReadable(s)
 \* a malformed names file may be ignored or diagnosed - but the run must end in one of the two
 NamesBad(s) == s.names = "emptyfirst"
@@ -53,7 +60,7 @@ NamesBad(s) == s.names = "emptyfirst"
 AltOK(s, o) ==
   /\ o.altBad = 0
   /\ s.opt # "solstub" => o.altN = 0
-  /\ (s.opt = "solstub" /\ o.sol = "ok" /\ o.code = Scripted /\ s.model \in {"ok_lp", "ok_logic", "ok_noobj", "ok_obj2"})
+  /\ (s.opt = "solstub" /\ o.sol = "ok" /\ o.code = Scripted /\ s.model \in {"ok_lp", "ok_logic", "ok_noobj", "ok_obj2", "ok_quad"})
         => (o.altN = NAlt /\ o.nsol = NAlt /\ o.altSeq)      \* altSeq: the files are <stub>1.sol .. <stub>N.sol
 WellFormed(s, o) ==
   /\ ~o.hang /\ ~o.crash
